@@ -6,9 +6,11 @@ Import ListNotations.
 Section Step.
 Variable bname : bytes.
 Variable store : ident -> lookup.
+Variable okrow : ident -> row -> Prop.
+Hypothesis store_ok : forall i r, store i = LRow r -> okrow i r.
 Variable async_store : bool.
-Notation Good := (Good (srow store) async_store).
-Notation Good0 := (Good0 (srow store) async_store).
+Notation Good := (Good okrow async_store).
+Notation Good0 := (Good0 okrow async_store).
 Notation authenticate := (authenticate).
 Notation on_auth := (on_auth store async_store).
 Notation handle := (handle store async_store).
@@ -30,7 +32,7 @@ Qed.
 
 Lemma auth_set_good q i r dg s :
   Good s -> made (conns s q) = true -> dg = sha1 (nonce (conns s q) ++ r_secret r) ->
-  (async_store = false -> store i = LRow r) ->
+  (async_store = false -> okrow i r) ->
   Good (logA (AAuth q i r dg)
           (modc q (fun c => set_subchans (r_sub r) (set_pubchans (r_pub r) (set_ak (Some i) c))) s)).
 Proof.
@@ -112,7 +114,7 @@ Proof.
   apply bytes_eqb_eq in E1. subst i.
   destruct (ak_some_link s q me G Hak) as (r & Hla & Hp & _).
   apply memc_In in E2. rewrite Hp in E2.
-  destruct (publish_good (srow store) async_store q c d s me r G Hla E2) as (s' & Es & Gs). rewrite Es. exact Gs.
+  destruct (publish_good okrow async_store q c d s me r G Hla E2) as (s' & Es & Gs). rewrite Es. exact Gs.
 Qed.
 
 Lemma on_subscribe_good q c s : Good s -> ak (conns s q) <> None -> Good (st (on_subscribe q c s)).
@@ -234,7 +236,7 @@ Qed.
 Lemma good_ext s s' :
   Good s -> alog s' = alog s -> subs s' = subs s -> (forall q, conns s' q = conns s q) -> Good s'.
 Proof.
-  intros G Ha Hs Hc. apply (good_inert (srow store) async_store s); auto. intros q. rewrite Hc. reflexivity.
+  intros G Ha Hs Hc. apply (good_inert okrow async_store s); auto. intros q. rewrite Hc. reflexivity.
 Qed.
 
 Lemma cl_closing q s : closing (conns (cl q s) q) = true.
@@ -312,10 +314,10 @@ Proof. intros G. unfold do_peer_closed. destruct (can_read _); [apply cl_good|];
 Lemma do_lost_good q s : Good s -> Good (do_lost q s).
 Proof.
   intros G. unfold do_lost. destruct (made (conns s q) && negb (lost (conns s q))); [|exact G].
-  pose proof (cl_good (srow store) async_store q s G) as G1. pose proof (cl_closing q s) as Hc.
+  pose proof (cl_good okrow async_store q s G) as G1. pose proof (cl_closing q s) as Hc.
   set (s1 := cl q s) in *.
   destruct (copen (conns s1 q)) eqn:Ho.
-  - destruct G1 as (G10 & O1). destruct (lostp_good0 (srow store) async_store q s1 G10 Ho) as (G2 & F & _ & _ & Fc & _).
+  - destruct G1 as (G10 & O1). destruct (lostp_good0 okrow async_store q s1 G10 Ho) as (G2 & F & _ & _ & Fc & _).
     apply flags_good.
     + split; [exact G2|]. intros q'. destruct (F q') as (-> & ->). apply O1.
     + rewrite Fc. exact Hc.
